@@ -4,6 +4,8 @@ def _jobs(tier):
     for k in range(1, 63):
         jobs.append(dict(sub="vec", count=4000 * mult, fix=dict(k=k, kN=(1, 6))))
         jobs.append(dict(sub="kernel", count=2000 * mult, fix=dict(k=k)))
+    for k in range(1, 63, 4):
+        jobs.append(dict(sub="vec", count=1500 * mult, fix=dict(k=(k, min(62, k + 3)), kN=(1, 6)), flavour="asan"))
     for kN in range(7, 13):
         jobs.append(dict(sub="vec", count=300 * mult, fix=dict(kN=kN)))
     for k in (1, 2, 3):
